@@ -22,7 +22,9 @@ PROP = {
                   "requests using a cookie race with its logout (through the mux and with the handler invoked directly) "
                   "while the stored expiry is a day stale (refresh-store path); after logout and restart the token must "
                   "not authenticate."
-                  " Bursts of wrong logins from up to 1100 other addresses are part of the HTTP limiter histories.",
+                  " Bursts of wrong logins from up to 1100 other addresses are part of the HTTP limiter histories, and so are "
+                  "credentials presented as HTTP Basic with an API request (wrong ones count as failed logins, a "
+                  "blocked address is refused whatever it presents, correct ones clear the count).",
     "level_note": "Time is advanced by moving stored instants back (limiter records, session expiries incl. the bbolt "
                   "records). Clock advances are kept >= 3 s (HTTP) / 1 ms (explicit clock) away from record boundaries "
                   "because the statement does not decide the boundary instant. bcrypt uses minimum-cost hashes.",
